@@ -405,3 +405,17 @@ func GOMAXPROCS(n int) int {
 	}
 	return S.GoMaxProcs
 }
+
+// Pt is the identity with a scheduling point: rewritten code calls shared objects whose
+// methods are atomic for the scheduler as vsched.Pt(obj).Method(...), so that a thread can be
+// preempted between two such calls (arguments are evaluated after the point).
+func Pt[T any](v T) T {
+	if S != nil && CallPoints {
+		Point("call")
+	}
+	return v
+}
+
+// CallPoints switches the scheduling points of Pt on (harnesses enable them for the scenarios in
+// which the object is really shared; elsewhere they would only multiply equivalent schedules).
+var CallPoints bool
